@@ -75,7 +75,9 @@ def manual_place(net, arch, fold_bn: bool) -> None:
         rep, frozen, has_def = reps[i]
         if rep not in maskers:
             w = sh[i]["ch"]
-            maskers[rep] = PITFrozenFeaturesMasker(w) if frozen else PITFeaturesMasker(w)
+            # the user may ask for more than one keep-alive channel
+            ka = 2 if (w >= 3 and (rep + w) % 3 == 0) else 1
+            maskers[rep] = PITFrozenFeaturesMasker(w) if frozen else PITFeaturesMasker(w, keep_alive_channels=ka)
         fm = maskers[rep]
         old = net.layers[lname(i)]
         if isinstance(old, nn.Conv1d):
